@@ -30,6 +30,19 @@ class Tok(str):
         return (str(self), 'adapted')
 
 
+class FalsyTok(Tok):
+    """... and is false in a boolean context (an empty container registered as
+    a utility, say): only None means "nothing registered"."""
+
+    def __bool__(self):
+        return False
+
+
+def tok(n):
+    # the tokens of r0, r2, ... are falsy
+    return (FalsyTok if int(n[1:]) % 2 == 0 else Tok)('V' + n)
+
+
 class World:
     def __init__(self, cfg):
         newworld()
@@ -70,7 +83,7 @@ class World:
             self.reg[n].__bases__ = tuple(self.reg[b] for b in bs)
             self.bases = nb
         elif t == 'reg':
-            self.areg(n).register([self.R], self.P, '', Tok('V' + n))
+            self.areg(n).register([self.R], self.P, '', tok(n))
             if self.kind == 'components':
                 self.reg[n].registerUtility('U' + n, self.PU)
             self.regd.add(n)
